@@ -3,7 +3,7 @@ From V Require Import lib.Words lib.PMap spec.RfcTables spec.PrefixCode spec.Dec
   model.MetaBlockHeader model.Stream.
 Extraction Language OCaml.
 Extraction "../build/ocaml/c01/model.ml"
-  decode ngetd context_id apply_transform rfc_lut0 rfc_lut1 rfc_lut2 dist_limit dist_alphabet Z.of_N
+  decode decode_prefix ngetd context_id apply_transform rfc_lut0 rfc_lut1 rfc_lut2 dist_limit dist_alphabet Z.of_N
   wrap_position set_params configure hq_histogram_ok hq_ok known_hasher choose_hasher_type
   rb_setup rb_writes rb_at fold_pos fold_pos_asfound
   store_chunks encode_window_bits store_compressed_meta_block_header store_var_len_uint8 N_to_bits.
